@@ -156,7 +156,7 @@ def run(ctx):
         "heap bound checked: library peak <= %d*(input + expanded character data and attributes)+%d" % (HEAP_LIN, HEAP_C0),
     ]
     bad = common.forbidden_scan()
-    cres = common.coq_properties([PID, "C02_front"])
+    cres = common.coq_properties([PID, "C02_front", "C02_conv"])
     common.proof_coverage(ctx, cres)
     proof_broken = (not cres["ok"]) or bool(bad)
     tables = gen.tables_json()
@@ -235,8 +235,29 @@ def run(ctx):
         for dgr in front.get("disagreements", [])[:3]:
             if str(dgr.get("kind", "")).startswith("crash"):
                 viol.append({"input": "xmlfront --hex " + str(dgr.get("doc_hex"))[:4000], "kind": "front-end-crash", "clauses": ["crash / sanitizer report in wbxml_tree_from_xml"], "answer": str(dgr)[:1500]})
+    # ---- tie of the concrete conversion model (Model/ConvXml2Wbxml.v: front end + WBXML encoder under the option tuple)
+    #      to wbxml_conv_xml2wbxml_run: OK/ERR and the exact WBXML bytes
+    conv = None
+    try:
+        from vlib import xmlfront as _xf
+        if hasattr(_xf, "correspond_conv"):
+            conv = _xf.correspond_conv(ctx.seed, quick)
+    except common.BuildError:
+        raise
+    except ImportError:
+        pass
+    if conv is not None:
+        ctx.coverage["conversion_model_tie"] = {k: conv[k] for k in ("evaluations", "soft_error_code_differences", "distribution") if k in conv}
+        ctx.coverage["conversion_model_tie"]["disagreements"] = len(conv.get("disagreements", []))
+        for dgr in conv.get("disagreements", [])[:3]:
+            knd = str(dgr.get("kind", ""))
+            marks = [m for m in ("!NULL-OUT-ON-OK", "!OUT-ON-ERROR", "!LEN-ON-ERROR", "!INPUT-MODIFIED") if m in str(dgr.get("c", ""))]
+            if knd.startswith("crash") or marks:
+                knd = knd + " " + " ".join(marks)
+                viol.append({"input": "xmlfront --conv --hex " + str(dgr.get("doc_hex"))[:4000], "kind": "conversion-" + knd,
+                             "clauses": ["wbxml_conv_xml2wbxml_run breaks its result contract (%s)" % knd], "answer": str(dgr)[:1500]})
     ctx.coverage.update({
-        "evaluations": len(cases) + (front["evaluations"] if front else 0), "distinct_nontrivial": len(nontrivial),
+        "evaluations": len(cases) + (front["evaluations"] if front else 0) + (conv["evaluations"] if conv else 0), "distinct_nontrivial": len(nontrivial),
         "rule": "documents = project XML corpus + text-level mutations (truncate, flip, repeat/drop/insert elements, CDATA, PIs, entities, "
                 "attribute bloat, unknown names, DOCTYPE removed/replaced, UTF-16/Latin-1 transcoding, deeper wrapping) + prefixes + random + "
                 "nesting around the limit and far beyond + width + internal-entity expansion + embedded DevInf, under random option tuples "
@@ -252,7 +273,11 @@ def run(ctx):
         ctx.violation("front-end-correspondence-broken", {"broken": "Model/XmlFront.v and wbxml_tree_from_xml disagree on tree-or-error; no input violating the property's own oracle was found",
                                                            "first_cases": [{k: str(v)[:1500] for k, v in d.items()} for d in front["disagreements"][:3]],
                                                            "replay_cmd": "python3 -m vlib.xmlfront --hex <doc_hex>"}, found_input=False)
+    if not viol and conv is not None and conv.get("disagreements"):
+        ctx.violation("conversion-correspondence-broken", {"broken": "Model/ConvXml2Wbxml.v and wbxml_conv_xml2wbxml_run disagree on status or WBXML bytes; no input violating the property's own oracle was found",
+                                                            "first_cases": [{k: str(v)[:1500] for k, v in d.items()} for d in conv["disagreements"][:3]],
+                                                            "replay_cmd": "python3 -m vlib.xmlfront --conv --hex <doc_hex>"}, found_input=False)
     if not viol and proof_broken:
-        ctx.violation("proof-broken", {"broken": "Properties_C02.v / Properties_C02_front.v no longer check", "failed_theorems": cres["failed"],
+        ctx.violation("proof-broken", {"broken": "Properties_C02.v / Properties_C02_front.v / Properties_C02_conv.v no longer check", "failed_theorems": cres["failed"],
                                        "broken_at": cres.get("broken_at"), "forbidden": bad, "log_tail": cres["log"][-3000:],
                                        "search": "sanitizer-backed exploration of %d cases found no failing input" % len(cases)}, found_input=False)
